@@ -234,3 +234,38 @@ theorem afterFirstSlashAux_none (s : Str) (h : '/' ∉ s) : afterFirstSlashAux s
     simp [afterFirstSlashAux, hc, ih (fun h' => h (List.mem_cons_of_mem _ h'))]
 
 end Ford.Ext
+
+namespace Ford.Ext
+open Ford
+
+theorem xFindTop_not_skipped (skip : List Str) (name : Str) (xs : List XObj) (o : XObj)
+    (h : xFindTop skip name xs = .ok (some o)) : skip.contains (xCls o) = false := by
+  induction xs with
+  | nil => simp [xFindTop] at h
+  | cons x r ih =>
+    cases x with
+    | text s => simp only [xFindTop] at h; exact ih h
+    | node cls n url parent pt attrs =>
+      by_cases hs : skip.contains cls = true
+      · simp only [xFindTop, hs, if_true] at h; exact ih h
+      · have hs' : skip.contains cls = false := by
+          cases hc : skip.contains cls
+          · rfl
+          · exact absurd hc hs
+        cases n with
+        | str s =>
+          by_cases hn : (lower name == lower s) = true
+          · simp only [xFindTop, hs', hn, if_true] at h
+            simp only [Bool.false_eq_true, if_false, Except.ok.injEq, Option.some.injEq] at h
+            subst h
+            simpa [xCls] using hs'
+          · simp only [xFindTop, hs', hn] at h
+            simp only [Bool.false_eq_true, if_false] at h
+            exact ih h
+        | null => simp only [xFindTop, hs', Bool.false_eq_true, if_false] at h; cases h
+        | bool b => simp only [xFindTop, hs', Bool.false_eq_true, if_false] at h; cases h
+        | num k => simp only [xFindTop, hs', Bool.false_eq_true, if_false] at h; cases h
+        | arr ys => simp only [xFindTop, hs', Bool.false_eq_true, if_false] at h; cases h
+        | obj kvs => simp only [xFindTop, hs', Bool.false_eq_true, if_false] at h; cases h
+
+end Ford.Ext
